@@ -17,12 +17,18 @@ def register(prop, J):
                extra_pkgs=["dyn", "gendrv"], timeout=(900, 1200), opts={"fuzz": "FuzzC03Accept", "fuzztime": (0, 240)}),
              J("fuzz-v1", "v1", "codecprops", "^TestC03Accept$", tiers=("thorough",), shards=(1, 1), prepare="prepare_codec",
                extra_pkgs=["dyn", "gendrv"], timeout=(900, 1200), opts={"fuzz": "FuzzC03Accept", "fuzztime": (0, 120)}),
+             # the envelope clause, on the wire between generated client and generated server (appended last)
+             J("envelope-v2", "v2", "resprops", "^TestC03", checks=(4000, 1000000), shards=(4, 16), prepare="prepare_resources",
+               extra_pkgs=["dyn", "gendrv"], timeout=(1200, 3000)),
+             J("envelope-v1", "v1", "resprops", "^TestC03", checks=(3000, 500000), shards=(4, 16), prepare="prepare_resources",
+               extra_pkgs=["dyn", "gendrv"], timeout=(1200, 3000)),
          ],
          level_text="differential testing in both directions against a reference encoder/decoder pair written from the protocol rules "
                     "(strict JSON on encoding/json's tokenizer with duplicate-key / trailing-data / UTF-8 checks, hand-written ROR2 "
                     "recursive descent, context-safety check for URL path and query), over generated schemas and values",
          level_note="the reference is only as good as the protocol rules available offline (DESIGN.md Appendix A lists each rule and "
-                    "its grounding); envelopes and headers are checked by the resource-level harness (C02), not here",
+                    "its grounding); envelopes and headers are checked on the wire of generated calls (verb, method / protocol-version / override headers, content types, "
+                    "top-level members of request and response bodies) against the protocol's shapes",
          technique="property-based differential testing (rapid) against an independent reference codec",
          design_ref="2/C03, Appendix A",
          assumptions=["bytes >= 0x80 follow the known finding KF-C03-bytes-utf8 (counted and excluded by signature)",
